@@ -517,7 +517,7 @@ class SupvisorsOptions:
         """ Convert a string into a list of period values. """
         try:
             period = float(value)
-            if 1.0 > period or period > 3600.0:
+            if not 1.0 <= period <= 3600.0:  # NOTE: nan is rejected too
                 raise ValueError
             return period
         except ValueError:
@@ -538,7 +538,7 @@ class SupvisorsOptions:
         for val in str_periods:
             try:
                 period = float(val)
-                if 1.0 > period or period > 3600.0:
+                if not 1.0 <= period <= 3600.0:  # NOTE: nan is rejected too
                     raise ValueError
                 periods.append(period)
             except ValueError:
